@@ -115,7 +115,18 @@ func ruleLookupTable(c *Ctx) {
 		atoiIndexed := map[string]bool{}     // indexed by strconv.Atoi(token) result
 		atoiVars := map[types.Object]bool{}
 		cmpConsts := map[string]bool{}
+		// decided on the effect normal form of the method whenever that is available
+		sim := c.lookupFactsBySim(rule, tname, fd, formats)
+		if sim != nil {
+			indexed, atoiIndexed, cmpConsts = sim.indexed, sim.atoiIndexed, sim.cmpConsts
+			for comp := range sim.consulted {
+				consults = append(consults, consult{comp, nil, nil, true})
+			}
+		}
 		ast.Inspect(fd.Body, func(nd ast.Node) bool {
+			if sim != nil {
+				return false
+			}
 			switch x := nd.(type) {
 			case *ast.CallExpr:
 				// <list of receiver parts>.lookup(token): a package function that consults its sources in order
@@ -226,7 +237,7 @@ func ruleLookupTable(c *Ctx) {
 		nmap := 0
 		c.walkWithIfStack(fd.Body, func(nd ast.Node, ifs []*ast.IfStmt) {
 			ix, ok := nd.(*ast.IndexExpr)
-			if !ok {
+			if !ok || sim != nil {
 				return
 			}
 			p, ok := c.apath(ix.X)
@@ -321,6 +332,9 @@ func ruleLookupTable(c *Ctx) {
 			}
 		})
 		for k, cn := range consults {
+			if sim != nil {
+				break
+			}
 			key := fmt.Sprintf("%s:fallthrough(%s)", tname, cn.comp)
 			if k == len(consults)-1 {
 				// the last consultation's own results are returned
@@ -451,22 +465,34 @@ func ruleLookupTable(c *Ctx) {
 				c.saw(c.funcName(enc))
 				written := map[string]bool{}
 				usesItoa := false
-				ast.Inspect(enc.Body, func(nd ast.Node) bool {
-					as, ok := nd.(*ast.AssignStmt)
-					if !ok {
-						return true
-					}
-					for _, l := range as.Lhs {
-						if ix, ok := l.(*ast.IndexExpr); ok {
-							if s, ok := c.constString(ix.Index); ok {
-								written[s] = true
-							} else if call, ok := ix.Index.(*ast.CallExpr); ok && c.isPkgFunc(call, "strconv", "Itoa") {
-								usesItoa = true
-							}
+				// the encoder and the package helpers it calls
+				encBodies := []*ast.FuncDecl{enc}
+				if ef := c.method("ResponsesProps", "MarshalJSON"); ef != nil {
+					for _, g := range c.staticCallees(ef) {
+						if gfd := c.decl(g); gfd != nil && gfd.Body != nil && gfd != enc {
+							c.saw(c.funcName(gfd))
+							encBodies = append(encBodies, gfd)
 						}
 					}
-					return true
-				})
+				}
+				for _, eb := range encBodies {
+					ast.Inspect(eb.Body, func(nd ast.Node) bool {
+						as, ok := nd.(*ast.AssignStmt)
+						if !ok {
+							return true
+						}
+						for _, l := range as.Lhs {
+							if ix, ok := l.(*ast.IndexExpr); ok {
+								if s, ok := c.constString(ix.Index); ok {
+									written[s] = true
+								} else if call, ok := ix.Index.(*ast.CallExpr); ok && c.isPkgFunc(call, "strconv", "Itoa") {
+									usesItoa = true
+								}
+							}
+						}
+						return true
+					})
+				}
 				for w := range written {
 					c.ob(rule, "Responses:name("+w+")", fd.Pos(), cmpConsts[w], fmt.Sprintf("encoder writes member %q but JSONLookup never answers to that token", w))
 				}
